@@ -763,13 +763,24 @@ def check_literal(s, row, stats):
                 tag = "literal.integer_lone_sign"
             fails.append("%s: %s(%r) is true" % (tag, api, s))
 
+    # a literal of the documented form whose value is not representable (1E400 -> inf) is a
+    # format question for IsFloat and a value question for toDouble: toDouble must refuse it
+    # (it used to return infinity; fixed in /repo, see known_findings.json C11 overflow-literal)
+    pf = py_float(s)
+    overflow = pf is not None and (pf != pf or pf in (float("inf"), float("-inf")))
     verdict("isfloat", "float", bool(flags & 1), "IsFloat")
     verdict("isinteger", "int", bool(flags & 2), "IsInteger")
-    verdict("todouble", "float", bool(flags & 4), "toDouble")
+    if overflow:
+        if flags & 4:
+            fails.append("literal.todouble_accepts_overflow: toDouble(%r) is true for a value outside the double range" % s)
+        if stats is not None:
+            stats.label("lit_overflow")
+    else:
+        verdict("todouble", "float", bool(flags & 4), "toDouble")
     verdict("tointeger", "int", bool(flags & 8), "toInteger")
     verdict("toindex", "index", bool(flags & 16), "toIndex")
     verdict("deg2gon", "dms", bool(flags & 32), "deg2gon")
-    if bool(flags & 1) != bool(flags & 4):
+    if bool(flags & 1) != bool(flags & 4) and not overflow:
         fails.append("literal.todouble_isfloat: IsFloat and toDouble disagree on %r" % s)
     if (flags & 1) and py_float(s) is None:
         fails.append("literal.isfloat_unparsable: IsFloat(%r) but a standard float parser cannot consume it" % s)
